@@ -3,7 +3,7 @@ import json
 import vpcore as v
 from vprun import Run
 
-EXPORT_POOLS = ["path", "attr", "horizon"]
+EXPORT_POOLS = ["path", "attr", "horizon", "twice"]
 
 CFG = """SPECIFICATION Spec
 CONSTANTS
@@ -59,7 +59,7 @@ def check_shape(behs, traces):
     """machinery check (not a verdict): every schedule produced its Reset line plus one line per step"""
     for b, t in zip(behs, traces):
         o = json.loads(b)
-        want = 2 if o["mode"] == "export" else 1 + len(o["steps"])
+        want = 3 if o["mode"] == "export" else 1 + len(o["steps"])
         if len(t) != want:
             raise v.MachineryError("harness recorded %d lines for a schedule with %d steps" % (len(t), want - 1))
 
@@ -135,14 +135,15 @@ def main(run: Run):
         traces = run.execute("c09", "pkg/server", "^TestVerifC09$", behs, tag="c09-inbound")
         check_shape(behs, traces)
         validate_group(run, traces, behs, "inbound")
-    run.extra["enumeration"] = ("every case of the MCExport pools (path, attr%s, horizon, inbound) - exhaustive "
+    run.extra["enumeration"] = ("every case of the MCExport pools (path, attr%s, horizon, twice, inbound) - exhaustive "
                                 "over the abstract domains of spec/ExportDom.tla"
                                 % ("" if thorough else " [quick slice: 2 of 4 unknown-attribute sets]"))
 
 
-RULE = ("cases = every (local speaker, peer with options, route) / (peer, announcement history) of the "
+RULE = ("cases = every (local speaker, peer with options [, second peer], route) / (peer, announcement history) of the "
         "MCExport pools, enumerated by TLC as one-step behaviours; each is executed on the real "
-        "(*BgpServer).processOutgoingPaths / handleFSMMessage with peers built as the server builds them; "
+        "(*BgpServer).processOutgoingPaths (the SAME stored path twice: to the peer, then to the second peer or to the "
+        "same peer again) / handleFSMMessage with peers built as the server builds them; "
         "every recorded step is judged by ExportTrace.tla. non-trivial = a case in which a copy was "
         "really produced (attribute rules apply), or whose route must not be sent to the target, or "
         "(inbound) whose route must be rejected; counted by the trace spec per distinct case")
